@@ -1,0 +1,17 @@
+//go:build verif
+
+package channelmonitor
+
+import datatransfer "github.com/filecoin-project/go-data-transfer/v2"
+
+// VerifMonitored lists the channels the monitor currently tracks
+// (verification hook, only built with -tags verif).
+func (m *Monitor) VerifMonitored() []datatransfer.ChannelID {
+	m.lk.RLock()
+	defer m.lk.RUnlock()
+	out := make([]datatransfer.ChannelID, 0, len(m.channels))
+	for chid := range m.channels {
+		out = append(out, chid)
+	}
+	return out
+}
